@@ -97,6 +97,12 @@ def run_singleton(scn):
         REC.violation('C16', 'two_connections',
                       'singleton pool has %d live underlying connections: %r' % (len(alive), alive))
 
+    def on_rejected(self, r):
+      # the pool sent a request to a connection that is not open
+      c = tracker.calls.get(r.call_id)
+      if c is not None:
+        c.arrivals.append((CLOCK.now, r.sink))
+
     def on_request(self, r):
       c = tracker.calls.get(r.call_id)
       if c is not None:
@@ -167,7 +173,8 @@ def run_singleton(scn):
               and s.opened_at is not None and s.opened_at <= t_arr]
     if others and sink.died_at is None:
       REC.violation('C16', 'not_shared', 'request %s went to %r while %r was also alive' % (c.id, sink, others))
-    if sink.died_at is not None and sink.died_at < t_arr - 1e-9 and sink.opened_at is not None:
+    # only a request issued after the failure is "the next request after it has failed"
+    if sink.died_at is not None and sink.died_at < c.t - 1e-9 and sink.opened_at is not None:
       REC.violation('C16', 'request_on_failed_connection',
                     'request %s was sent on %r which had failed %.6f s earlier instead of on a fresh connection' % (
                       c.id, sink, t_arr - sink.died_at))
